@@ -59,7 +59,7 @@ fn main() {
 
 /// Verdict for one (table, line) with its set of allowed by-hand results.
 /// Returns (ok, class, detail)
-fn verdict(tb: &Table, line: &[String], allowed: &[Vec<OutTok>]) -> (bool, &'static str, Value) {
+fn verdict(tb: &Table, line: &[String], allowed: &[Vec<OutTok>], cause_drift: &mut usize) -> (bool, &'static str, Value) {
     let text = render_line(line);
     let obs = parse::parse_with(&text, Some(tb));
     let mut hands = Vec::new();
@@ -72,8 +72,13 @@ fn verdict(tb: &Table, line: &[String], allowed: &[Vec<OutTok>]) -> (bool, &'sta
             let toks: Vec<String> = a.iter().map(|t| t.t.clone()).collect();
             let htext = render_line(&toks);
             let hand = parse::parse_with(&htext, None);
-            // a syntax error must be the same syntax error (same cause, same commands parsed before it)
-            let same_parse = obs.status == hand.status && obs.printed == hand.printed && obs.err == hand.err;
+            // Both parse to the same command lists, or both are syntax errors (no
+            // command is executed).  That the two syntax errors have the same
+            // cause is expected but not part of the property: counted as drift.
+            let same_parse = obs.status == hand.status && obs.printed == hand.printed;
+            if same_parse && obs.err != hand.err {
+                *cause_drift += 1;
+            }
             // origin of every word: only comparable when the parse succeeded
             // (after a syntax error the rest of the line is never tokenised)
             let mut same_words = true;
@@ -118,6 +123,7 @@ fn replay(args: &[String]) -> i32 {
     let mut n_bad = 0usize;
     let mut n_nontrivial = 0usize;
     let mut n_amb = 0usize;
+    let mut n_cause_drift = 0usize;
     let mut samples: Vec<Value> = Vec::new();
     // ambiguous cases arrive as several lines with the same (tb, line)
     let mut pending: HashMap<String, (Table, Vec<String>, Vec<Vec<OutTok>>, bool)> = HashMap::new();
@@ -133,7 +139,7 @@ fn replay(args: &[String]) -> i32 {
             n_unspec += 1;
             return false;
         }
-        let (ok, class, detail) = verdict(tb, line, allowed);
+        let (ok, class, detail) = verdict(tb, line, allowed, &mut n_cause_drift);
         let plain: Vec<String> = line.iter().filter(|t| *t != "LC").cloned().collect();
         let changed = allowed.iter().any(|a| a.iter().map(|t| &t.t).ne(plain.iter()));
         if ok {
@@ -199,7 +205,8 @@ fn replay(args: &[String]) -> i32 {
     out.flush().unwrap();
     let summary = json!({"lines": n_cases, "cases": n_groups, "unspecified_skipped": n_unspec,
         "agree_parsed": n_ok_parsed, "agree_syntax_error": n_ok_error, "bad": n_bad,
-        "nontrivial": n_nontrivial, "ambiguous": n_amb, "stopped_early": stopped_early, "samples": samples});
+        "nontrivial": n_nontrivial, "ambiguous": n_amb, "stopped_early": stopped_early,
+        "syntax_error_cause_drift": n_cause_drift, "samples": samples});
     println!("{summary}");
     0
 }
@@ -268,6 +275,7 @@ fn judge(args: &[String]) -> i32 {
     let (mut n, mut n_unspec, mut n_ok_parsed, mut n_ok_err, mut n_bad, mut n_missing, mut n_nontrivial) =
         (0usize, 0usize, 0usize, 0usize, 0usize, 0usize, 0usize);
     let mut samples = Vec::new();
+    let mut n_cause_drift = 0usize;
     for l in std::io::BufReader::new(std::fs::File::open(rec_path).expect("open --rec")).lines() {
         let l = l.unwrap();
         if l.trim().is_empty() {
@@ -290,7 +298,10 @@ fn judge(args: &[String]) -> i32 {
             let toks = strs(a);
             let htext = render_line(&toks);
             let hand = parse::parse_with(&htext, None);
-            let same = r["st"] == hand.status.as_str() && r["printed"] == hand.printed.as_str() && r["err"] == hand.err.as_str();
+            let same = r["st"] == hand.status.as_str() && r["printed"] == hand.printed.as_str();
+            if same && r["err"] != hand.err.as_str() {
+                n_cause_drift += 1;
+            }
             hands.push(json!({"text": htext, "status": hand.status, "printed": hand.printed, "err": hand.err}));
             if same {
                 ok = true;
@@ -321,7 +332,7 @@ fn judge(args: &[String]) -> i32 {
     out.flush().unwrap();
     println!("{}", json!({"records": n, "unspecified_skipped": n_unspec, "agree_parsed": n_ok_parsed,
         "agree_syntax_error": n_ok_err, "bad": n_bad, "missing": n_missing, "nontrivial": n_nontrivial,
-        "samples": samples}));
+        "syntax_error_cause_drift": n_cause_drift, "samples": samples}));
     0
 }
 
